@@ -16,107 +16,170 @@ import (
 )
 
 // fx worker counts: Walk / Map / Filter / Parallel with WithWorkers(w) never run more than
-// max(w,1) callbacks at once, and every item is processed exactly once.
+// max(w,1) callbacks at once (no option: the documented default of 16; UnlimitedWorkers: no
+// bound), and every item is processed exactly once.  One case is a sequence of one to three
+// pipelines of one or two stages, each stage with its own option, because the cap of one call
+// must not depend on what an earlier or a neighbouring call was configured with.
 func TestVerifC05FxWorkers(t *testing.T) {
 	logx.Disable()
 	st := verifkit.New("fx-workers")
 	defer st.Flush()
 	rapid.Check(t, func(t *rapid.T) {
 		st.Eval()
-		items := rapid.IntRange(0, 60).Draw(t, "items")
-		w := rapid.IntRange(-1, 8).Draw(t, "workers")
-		op := rapid.SampledFrom([]string{"Walk", "Map", "Filter", "Parallel"}).Draw(t, "op")
+		npipes := rapid.IntRange(1, 3).Draw(t, "pipelines")
+		var descr []string
+		nontrivial := false
+		for p := 0; p < npipes; p++ {
+			d, nt := fxPipeline(t, p)
+			descr = append(descr, d)
+			nontrivial = nontrivial || nt
+		}
+		if npipes > 1 {
+			st.Class("several-pipelines")
+		}
+		if nontrivial {
+			st.NonTrivial(fmt.Sprint(descr))
+		}
+	})
+}
+
+type fxGauge struct {
+	cur, max int64
+	seen     []int32
+}
+
+func (g *fxGauge) enter(i int) {
+	c := atomic.AddInt64(&g.cur, 1)
+	atomic.AddInt32(&g.seen[i], 1)
+	for {
+		m := atomic.LoadInt64(&g.max)
+		if c <= m || atomic.CompareAndSwapInt64(&g.max, m, c) {
+			break
+		}
+	}
+	for k := 0; k < i%6; k++ {
+		runtime.Gosched()
+	}
+	atomic.AddInt64(&g.cur, -1)
+}
+
+// fxStageOpt draws a stage's option: cap = 0 means "no bound asserted".
+func fxStageOpt(t *rapid.T, label string) (opts []fx.Option, cap int, descr string) {
+	switch rapid.IntRange(0, 5).Draw(t, label+"OptKind") {
+	case 0:
+		return nil, 16, "default"
+	case 1:
+		return []fx.Option{fx.UnlimitedWorkers()}, 0, "unlimited"
+	default:
+		w := rapid.IntRange(-1, 8).Draw(t, label+"Workers")
+		if rapid.IntRange(0, 9).Draw(t, label+"Wide") == 0 {
+			w = rapid.IntRange(17, 48).Draw(t, label+"WideWorkers")
+		}
 		eff := w
 		if eff < 1 {
 			eff = 1
 		}
-		var cur, max int64
-		seen := make([]int32, items)
-		enter := func(i int) {
-			c := atomic.AddInt64(&cur, 1)
-			atomic.AddInt32(&seen[i], 1)
-			for {
-				m := atomic.LoadInt64(&max)
-				if c <= m || atomic.CompareAndSwapInt64(&max, m, c) {
-					break
-				}
-			}
-			for k := 0; k < i%6; k++ {
-				runtime.Gosched()
-			}
-			atomic.AddInt64(&cur, -1)
+		return []fx.Option{fx.WithWorkers(w)}, eff, fmt.Sprintf("workers(%d)", w)
+	}
+}
+
+func fxPipeline(t *rapid.T, p int) (string, bool) {
+	items := rapid.IntRange(0, 60).Draw(t, "items")
+	if rapid.IntRange(0, 5).Draw(t, "manyItems") == 0 {
+		items = rapid.IntRange(61, 300).Draw(t, "itemsMany")
+	}
+	op := rapid.SampledFrom([]string{"Walk", "Map", "Filter", "Parallel"}).Draw(t, "op")
+	opts, eff, od := fxStageOpt(t, "s1")
+	g := &fxGauge{seen: make([]int32, items)}
+	// the stage's input in every shape a caller can hand it over: an unbuffered generator, a
+	// complete buffered list, a buffered channel that is still being fed, a Buffer(k) stage
+	shape := rapid.SampledFrom([]string{"From", "Just", "RangeBuffered", "RangeUnbuffered", "Buffer"}).Draw(t, "sourceShape")
+	gen := func(source chan<- any) {
+		for i := 0; i < items; i++ {
+			source <- i
 		}
-		// the stage's input in every shape a caller can hand it over: an unbuffered generator, a
-		// complete buffered list, a buffered channel that is still being fed, a Buffer(k) stage
-		shape := rapid.SampledFrom([]string{"From", "Just", "RangeBuffered", "RangeUnbuffered", "Buffer"}).Draw(t, "sourceShape")
-		gen := func(source chan<- any) {
-			for i := 0; i < items; i++ {
-				source <- i
-			}
+	}
+	var src fx.Stream
+	switch shape {
+	case "From":
+		src = fx.From(gen)
+	case "Just":
+		all := make([]any, items)
+		for i := range all {
+			all[i] = i
 		}
-		var src fx.Stream
-		switch shape {
-		case "From":
-			src = fx.From(gen)
-		case "Just":
-			all := make([]any, items)
-			for i := range all {
-				all[i] = i
-			}
-			src = fx.Just(all...)
-		case "RangeBuffered", "RangeUnbuffered":
-			c := 0
-			if shape == "RangeBuffered" {
-				c = rapid.IntRange(1, 16).Draw(t, "chanCap")
-			}
-			ch := make(chan any, c)
-			prefill := rapid.IntRange(0, c).Draw(t, "prefill")
-			if prefill > items {
-				prefill = items
-			}
-			for i := 0; i < prefill; i++ {
+		src = fx.Just(all...)
+	case "RangeBuffered", "RangeUnbuffered":
+		c := 0
+		if shape == "RangeBuffered" {
+			c = rapid.IntRange(1, 16).Draw(t, "chanCap")
+		}
+		ch := make(chan any, c)
+		prefill := rapid.IntRange(0, c).Draw(t, "prefill")
+		if prefill > items {
+			prefill = items
+		}
+		for i := 0; i < prefill; i++ {
+			ch <- i
+		}
+		go func() {
+			for i := prefill; i < items; i++ {
 				ch <- i
 			}
-			go func() {
-				for i := prefill; i < items; i++ {
-					ch <- i
-				}
-				close(ch)
-			}()
-			src = fx.Range(ch)
-		case "Buffer":
-			src = fx.From(gen).Buffer(rapid.IntRange(1, 16).Draw(t, "bufferSize"))
+			close(ch)
+		}()
+		src = fx.Range(ch)
+	case "Buffer":
+		src = fx.From(gen).Buffer(rapid.IntRange(1, 16).Draw(t, "bufferSize"))
+	}
+	// an optional first stage with its own option and its own gauge in front of the stage under test
+	var g0 *fxGauge
+	eff0, od0 := 0, ""
+	if rapid.IntRange(0, 2).Draw(t, "twoStages") == 0 {
+		var opts0 []fx.Option
+		opts0, eff0, od0 = fxStageOpt(t, "s0")
+		g0 = &fxGauge{seen: make([]int32, items)}
+		src = src.Map(func(item any) any { g0.enter(item.(int)); return item }, opts0...)
+	}
+	var out []int
+	collect := func(s fx.Stream) {
+		s.ForEach(func(item any) { out = append(out, item.(int)) })
+	}
+	switch op {
+	case "Walk":
+		collect(src.Walk(func(item any, pipe chan<- any) { g.enter(item.(int)); pipe <- item }, opts...))
+	case "Map":
+		collect(src.Map(func(item any) any { g.enter(item.(int)); return item }, opts...))
+	case "Filter":
+		collect(src.Filter(func(item any) bool { g.enter(item.(int)); return true }, opts...))
+	case "Parallel":
+		src.Parallel(func(item any) { g.enter(item.(int)) }, opts...)
+	}
+	descr := fmt.Sprintf("#%d %s[%s] on %s items=%d", p, op, od, shape, items)
+	if g0 != nil {
+		descr += " after Map[" + od0 + "]"
+		if eff0 > 0 && g0.max > int64(eff0) {
+			t.Fatalf("pipeline %s: the first stage (Map, %s) ran %d callbacks at once, its cap is %d", descr, od0, g0.max, eff0)
 		}
-		var out []int
-		collect := func(s fx.Stream) {
-			s.ForEach(func(item any) { out = append(out, item.(int)) })
-		}
-		switch op {
-		case "Walk":
-			collect(src.Walk(func(item any, pipe chan<- any) { enter(item.(int)); pipe <- item }, fx.WithWorkers(w)))
-		case "Map":
-			collect(src.Map(func(item any) any { enter(item.(int)); return item }, fx.WithWorkers(w)))
-		case "Filter":
-			collect(src.Filter(func(item any) bool { enter(item.(int)); return true }, fx.WithWorkers(w)))
-		case "Parallel":
-			src.Parallel(func(item any) { enter(item.(int)) }, fx.WithWorkers(w))
-		}
-		if max > int64(eff) {
-			t.Fatalf("%s with WithWorkers(%d) on a %s source: %d callbacks ran at once", op, w, shape, max)
-		}
-		for i, c := range seen {
+		for i, c := range g0.seen {
 			if c != 1 {
-				t.Fatalf("%s: item %d processed %d times", op, i, c)
+				t.Fatalf("pipeline %s: first stage processed item %d %d times", descr, i, c)
 			}
 		}
-		if op != "Parallel" {
-			sort.Ints(out)
-			if len(out) != items {
-				t.Fatalf("%s: %d items out, %d in", op, len(out), items)
-			}
+	}
+	if eff > 0 && g.max > int64(eff) {
+		t.Fatalf("pipeline %s: %d callbacks ran at once, the cap is %d", descr, g.max, eff)
+	}
+	for i, c := range g.seen {
+		if c != 1 {
+			t.Fatalf("pipeline %s: item %d processed %d times", descr, i, c)
 		}
-		if items > eff && max == int64(eff) {
-			st.NonTrivial(fmt.Sprintf("%s %s items=%d w=%d", op, shape, items, w))
+	}
+	if op != "Parallel" {
+		sort.Ints(out)
+		if len(out) != items {
+			t.Fatalf("pipeline %s: %d items out, %d in", descr, len(out), items)
 		}
-	})
+	}
+	return descr, eff > 0 && items > eff && g.max == int64(eff)
 }
